@@ -12,29 +12,33 @@ pub fn run(case: &Value, ctx: &Ctx) -> Outcome {
     let accept = case["accept"].as_bool().unwrap();
     let faults = case["faults"].as_array().unwrap();
     let n0: usize = shape0.iter().product();
-    // the original values, then the token edits in order
-    let mut tokens: Vec<f64> = (0..n0).map(|i| (i + 1) as f64 + 0.5).collect();
+    // the original values, then the token edits in order; a token is (value, on a line of its own)
+    let mut toks: Vec<(f64, bool)> = (0..n0).map(|i| ((i + 1) as f64 + 0.5, false)).collect();
     let id = case.to_string().bytes().fold(17u64, |h, b| h.wrapping_mul(31).wrapping_add(b as u64));
     for (k, f) in faults.iter().enumerate() {
         match f["f"].as_str().unwrap() {
             "drop" => {
-                let at = (id as usize + k) % tokens.len();
-                tokens.remove(at);
+                if !toks.is_empty() {
+                    let at = (id as usize + k) % toks.len();
+                    toks.remove(at);
+                }
             }
             "add" => {
-                let at = (id as usize + k) % (tokens.len() + 1);
-                tokens.insert(at, 99.25 + k as f64);
+                let inline = toks.iter().filter(|t| !t.1).count();
+                let at = (id as usize + k) % (inline + 1);
+                toks.insert(at, (99.25 + k as f64, false));
             }
+            "addline" => toks.push((77.5 + k as f64, true)),
             _ => {}
         }
     }
-    let own_line: Vec<f64> = faults.iter().enumerate().filter(|(_, f)| f["f"] == "addline").map(|(k, _)| 77.5 + k as f64).collect();
-    assert_eq!((tokens.len() + own_line.len()) as u64, case["ntok"].as_u64().unwrap());
-    let mut text = cli::write_text(&shape, &tokens, 6);
-    for v in &own_line {
-        text.extend_from_slice(format!("{v:.6}\n").as_bytes());
+    assert_eq!(toks.len() as u64, case["ntok"].as_u64().unwrap());
+    let inline: Vec<f64> = toks.iter().filter(|t| !t.1).map(|t| t.0).collect();
+    let mut text = cli::write_text(&shape, &inline, 6);
+    for v in toks.iter().filter(|t| t.1) {
+        text.extend_from_slice(format!("{:.6}\n", v.0).as_bytes());
     }
-    tokens.extend(own_line.iter().copied());
+    let tokens: Vec<f64> = inline.iter().copied().chain(toks.iter().filter(|t| t.1).map(|t| t.0)).collect();
     out.nontrivial = Some(format!("{shape0:?}/{}", case["faults"]));
     out.tag(format!("accept:{accept}"));
     out.tag(format!("faults:{}", faults.len()));
